@@ -632,15 +632,9 @@ impl Match<std::net::Ipv6Addr> for Prefix6 {
 
 impl Match<std::net::Ipv4Addr> for Prefix6 {
     fn contains(&self, ip: std::net::Ipv4Addr) -> bool {
-        match self.network().octets() {
-            // If this is a ::ffff:a.b.c.d prefix, check it against the v4 equivalent.
-            [0, 0, 0, 0, 0, 0, 0, 0, 0, 0, 0xff, 0xff, a, b, c, d] => Prefix4::new(
-                std::net::Ipv4Addr::new(a, b, c, d),
-                self.prefixlen - (128 - 32),
-            )
-            .contains(ip),
-            _ => false,
-        }
+        // An IPv4 address is inside an IPv6 prefix exactly when its ::ffff:a.b.c.d form is, so
+        // that the answer does not depend on which kind of socket the client arrived on.
+        self.contains(ip.to_ipv6_mapped())
     }
 }
 
